@@ -330,11 +330,16 @@ PLANS["C09"] = {
             "sizes 1..16), growing then shrinking sizes, alpha on/off, every algorithm, saturated contents, erroring calls, "
             "reset_internal_buffers, clone (both copies continue), back-end switches (set only when they change, so the selected back-end is "
             "part of the history), a quarter of the calls repeating the previous call with one thing changed (crop position, filter, "
-            "algorithm, alpha flag, contents); every call's output is compared bit for bit with the same call on Resizer::new(); the H3 scratch hook proves reuse-without-growth, growth and (under Miri, where Vec<u8> is 1-aligned) "
+            "algorithm, alpha flag, contents); every call's output is compared bit for bit with the same call on Resizer::new(); big step: histories of 7-11 calls with "
+            "intermediate images of several MB (wide-to-tall and tall-to-wide), one alpha-aware resize of a 66-72 MB source (retained buffer beyond 64 MB), "
+            "SuperSampling of a few hundred pixels per side, resets and clones in between; the H3 scratch hook proves reuse-without-growth, growth and (under Miri, where Vec<u8> is 1-aligned) "
             "misaligned-head paths were executed; non-trivial = every history; distinct = distinct history descriptor",
     "assumptions": CONV_ASSUME,
-    "quick": [step("rel", "firv-misc", 3200), step("asan", "firv-misc", 640), step("miri", "firv-misc", 160, shards=16, timeout=3000)],
+    "quick": [step("rel", "firv-misc", 3200), step("asan", "firv-misc", 640), step("miri", "firv-misc", 160, shards=16, timeout=3000),
+              # histories with big images (intermediates of several MB, a retained buffer beyond 64 MB); few processes: ~400 MB each
+              step("rel", "firv-misc", 48, sub="big", shards=4)],
     "thorough": [step("rel", "firv-misc", 160000, timeout=7200), step("asan", "firv-misc", 32000, timeout=7200),
+                 step("rel", "firv-misc", 2000, sub="big", shards=4, timeout=7200),
                  step("miri", "firv-misc", 1600, shards=16, timeout=20000)],
 }
 FLOORS["C09"] = {"quick": [
